@@ -5,6 +5,7 @@ import (
 	"os"
 
 	"verif/harness/dag"
+	"verif/harness/mon"
 	"verif/harness/sched"
 )
 
@@ -55,4 +56,58 @@ func init() {
 		fmt.Println(seen)
 		return 0
 	}
+}
+
+func init() {
+	checks["dbgviol"] = func(args []string) int {
+		sc := sched.ScenarioByName(args[0])
+		st := &mon.Stats{}
+		x := sched.NewExec(sc, sched.MonitorFactory(args[1:], st))
+		defer x.Close()
+		for k, a := range sc.Seed {
+			nv := len(x.Viol)
+			x.Step(a)
+			if len(x.Viol) > nv {
+				fmt.Printf("step %d action %s -> %d new violations\n", k, a.String(), len(x.Viol)-nv)
+				for _, v := range x.Viol[nv:] {
+					fmt.Println("   ", v.Property, v.Key, v.What[:min(len(v.What), 200)])
+				}
+				for _, n := range x.C.Nodes {
+					if n == nil {
+						continue
+					}
+					all, _ := n.Node.GetAllValidatorSets()
+					fmt.Printf("  node %d ff=%d lcr=%d table:", n.Idx, n.FFStep, n.Node.GetLastConsensusRoundIndex())
+					for r, ps := range all {
+						fmt.Printf(" %d:[", r)
+						for _, p := range ps {
+							fmt.Printf("k%d ", x.C.PeerIdx[p.PubKeyString()])
+						}
+						fmt.Printf("]")
+					}
+					cs := n.Node.VCoreState()
+					fmt.Printf(" validators:[")
+					for _, p := range cs.Validators {
+						fmt.Printf("k%d ", x.C.PeerIdx[p.PubKeyString()])
+					}
+					fmt.Println("]")
+				}
+				tr := x.C.Trace
+				if len(tr) > 12 {
+					tr = tr[len(tr)-12:]
+				}
+				fmt.Println("  trace tail:", tr)
+				return 1
+			}
+		}
+		fmt.Println("no violation")
+		return 0
+	}
+}
+
+func min(a, b int) int {
+	if a < b {
+		return a
+	}
+	return b
 }
